@@ -9,10 +9,11 @@ open Petl.Gen
 
 def expectedC13 : List (String × String) := [
   ("file:comparison.py", "c46d05a1308c92ce"),
+  ("file:compat.py", "2a259e16acd200bc"),
   ("file:config.py", "142bde514c82c29d"),
   ("file:transform/basics.py", "ef1ded632cafe787"),
   ("file:transform/headers.py", "b170f0cc5a1c0354"),
-  ("file:transform/regex.py", "6f7519d83abfcff1"),
+  ("file:transform/regex.py", "7acd499a0489265c"),
   ("file:transform/selects.py", "f935e8905e1e021c"),
   ("file:util/base.py", "771a68108eeb730d"),
   ("transform.basics.head", "14e815556131ea10"),
